@@ -1,13 +1,14 @@
 import ClusterVerif.Spec.C05
+import ClusterVerif.Model.C05R
 import Driver.Parse
 /-!
 C05 driver. One case line = one schedule on the real tracker:
 
   C05 q=<cap> w=<workers> n=<cids> <act> ... => <obs> | ret=<..> <obs> | ret=<..> <obs> ...
 
-acts   t:<pin>  u:<c>  r:<c>  R  e[P|U]:<c>  k[P|U]:<c>  x[P|U]:<c>  l:<c>  <k|x>..&<instr>      pin = c.k.m.t  (k ∈ h e g r z m 0, m ∈ r d)
+acts   t:<pin>  u:<c>  r:<c>  R  G  Rs  e[P|U]:<c>  k[P|U]:<c>  x[P|U]:<c>  l:<c>  F:<0|1>  <k|x>..&<instr>      pin = c.k.m.t  (k ∈ h e g r z m 0, m ∈ r d)
 obs    s=<status per cid>  a=<StatusAll entry per cid>  d=<daemon per cid>  h=<shared per cid>
-       f=<failed flag per cid>  p=<parked live calls>  g=<Track calls still running>
+       f=<failed flag per cid>  p=<parked live calls>  g=<Track calls still running>  L=<1: the daemon's reads fail>
 The first group is the observation before any action; then one group per act, taken at the stable point after it.
 Core Lean only.
 -/
@@ -55,6 +56,8 @@ def showStatus (st : Status) : String :=
 
 def parseSimpleAct (s : String) : Option Act :=
   if s == "R" then some .recoverAll else
+  if s == "G" then some .snapList else
+  if s == "Rs" then some .recoverAllRest else
   match s.splitOn ":" with
   | ["t", p] => (parsePinTok p).map .track
   | ["u", c] => c.toNat?.map .untrack
@@ -69,6 +72,7 @@ def parseSimpleAct (s : String) : Option Act :=
   | ["kU", c] => c.toNat?.map (.ok · (some .unpin))
   | ["xU", c] => c.toNat?.map (.err · (some .unpin))
   | ["l", c] => c.toNat?.map .lose
+  | ["F", b] => if b == "1" then some (.lsFail true) else if b == "0" then some (.lsFail false) else none
   | _ => none
 
 /-- `<k|x>:<c>&<t|u|r>:<..>` = the daemon's answer races with the instruction -/
@@ -110,7 +114,7 @@ def insertCall (k : CallObs) : List CallObs → List CallObs
 
 def sortCalls (l : List CallObs) : List CallObs := l.foldr insertCall []
 
-/-- the observation tokens, in the fixed order s a d h f p g -/
+/-- the observation tokens, in the fixed order s a d h f p g L -/
 def showObs (n : Nat) (o : Obs) : List String :=
   [ "s=" ++ perCid n (fun c => showStatus (o.status c)),
     "a=" ++ perCid n (fun c => match o.statusAll c with | some st => showStatus st | none => "-"),
@@ -118,7 +122,7 @@ def showObs (n : Nat) (o : Obs) : List String :=
     "h=" ++ perCid n (fun c => match o.shared c with | some p => showPin p | none => "-"),
     "f=" ++ perCid n (fun c => if o.failed c then "1" else "0"),
     "p=" ++ (let cs := sortCalls o.calls; if cs.isEmpty then "-" else ";".intercalate (cs.map showCall)),
-    s!"g={o.pending}" ]
+    s!"g={o.pending}", "L=" ++ (if o.lsDown then "1" else "0") ]
 
 def field (ws : List String) (key : String) : Option String :=
   (ws.find? (fun w => w.startsWith (key ++ "="))).map (fun w => (w.drop (key.length + 1)).toString)
@@ -152,9 +156,10 @@ def parseObs (n : Nat) (ws : List String) : Option Obs := do
   let ptok ← field ws "p"
   let calls ← if ptok == "-" then some [] else (ptok.splitOn ";").mapM parseCallTok
   let g ← (← field ws "g").toNat?
+  let lsd ← bool01 ((field ws "L").getD "0")
   if sts.length != n || all.length != n || dm.length != n || sh.length != n || fl.length != n then none
   pure { status := getAt sts .undefined, statusAll := getAt all none, daemon := getAt dm none,
-         shared := getAt sh none, failed := getAt fl false, calls := calls, pending := g }
+         shared := getAt sh none, failed := getAt fl false, calls := calls, pending := g, lsDown := lsd }
 
 def parseInfo (s : String) : Option (Nat × Status) :=
   match s.splitOn "." with
@@ -222,24 +227,32 @@ def normInfo : Status → Status
 
 structure ModelOut where
   s : State
+  ls : Bool := true       -- the daemon's reads work
+  snap : Option (Nat → Option PinSpec) := none   -- the pinset a RecoverAll in progress has already read
   ret : RetCode
   infos : List (Nat × Status)
   note : String := ""     -- non-empty: the model cannot follow the implementation's RecoverAll report
 
-/-- `recover c`, letting free workers take work first when (and only when) the queue would be full -/
-def recoverLazy (cfg : Cfg) (s : State) (c : Nat) : Nat → State × Ret
-  | 0 => recover cfg s c
+/-- one entry of RecoverAll's loop (`recoverWithPinInfo` with the status read at listing time), letting free workers take
+    work first when (and only when) the queue would be full -/
+def recoverLazy (cfg : Cfg) (s : State) (c : Nat) (st : Status) : Nat → State × Ret
+  | 0 => recoverWith cfg s c st
   | fuel + 1 =>
-    let r := recover cfg s c
+    let r := recoverWith cfg s c st
     if r.2 == .full then
       let s' := deqUnpin (deqPin cfg s)
       if s'.pinQ.length == s.pinQ.length && s'.unpinQ.length == s.unpinQ.length then r
-      else recoverLazy cfg s' c fuel
+      else recoverLazy cfg s' c st fuel
     else r
 
-def obsStrings (cfg : Cfg) (s : State) : List String := showObs cfg.ncids (observe (stabilize cfg s))
+def obsStrings (cfg : Cfg) (s : State) (ls : Bool) : List String := showObs cfg.ncids (observeR (stabilize cfg s) ls)
 
-def applyAct (cfg : Cfg) (s : State) (f : Frame) : ModelOut :=
+def applyAct (cfg : Cfg) (s : State) (ls : Bool) (snap : Option (Nat → Option PinSpec)) (f : Frame) : ModelOut :=
+  (fun (m : ModelOut) => match f.act with
+    | .lsFail on => { m with ls := !on, snap := snap }
+    | .snapList => { m with ls := ls, snap := some s.shared }
+    | .recoverAllRest => { m with ls := ls, snap := none }
+    | _ => { m with ls := ls, snap := snap }) <|
   match f.act with
   | .track p =>
     let r := track cfg s p
@@ -249,15 +262,20 @@ def applyAct (cfg : Cfg) (s : State) (f : Frame) : ModelOut :=
     let r := untrack cfg s c
     { s := r.1, ret := if r.2 == .full then .full else .nil, infos := [] }
   | .recover c =>
-    let r := recover cfg s c
-    { s := r.1, ret := if r.2 == .full then .full else .nil, infos := [(c, normInfo (statusOf r.1 c))] }
-  | .recoverAll =>
-    -- follow the order the implementation reports
-    let listed := (List.range cfg.ncids).filter (fun c => (statusAllOf s c).isSome)
+    let r := recoverR cfg s ls c
+    { s := r.1, ret := if r.2 == .full then .full else .nil, infos := [(c, normInfo (statusR r.1 ls c))] }
+  | .recoverAll | .recoverAllRest =>
+    let snap := match f.act with | .recoverAllRest => snap | _ => none
+    -- PinLs fails: StatusAll has nothing, RecoverAll reports the failure and recovers nothing
+    if !ls then { s := s, ret := .other, infos := [] } else
+    -- the statuses are those of the listing taken first (`recoverAllR`); follow the order the implementation reports
+    -- (a listing of the pinset read earlier by this RecoverAll — action G — is the one it uses)
+    let snap := listingR (match snap with | some sh => { s with shared := sh } | none => s) ls
+    let listed := (List.range cfg.ncids).filter (fun c => (snap c).isSome)
     let go := f.infos.foldl (fun (acc : State × List (Nat × Status) × String) ci =>
       let (st, out, note) := acc
       if note != "" then acc else
-      let r := recoverLazy cfg st ci.1 (cfg.workers + 2)
+      let r := recoverLazy cfg st ci.1 ((snap ci.1).getD .undefined) (cfg.workers + 2)
       if r.2 == .full then (st, out, s!"model-full-at-{ci.1}")
       else (r.1, out ++ [(ci.1, normInfo (statusOf r.1 ci.1))], note)) (s, [], "")
     let (s1, out, note) := go
@@ -265,12 +283,13 @@ def applyAct (cfg : Cfg) (s : State) (f : Frame) : ModelOut :=
     if note != "" then { s := s1, ret := .nil, infos := out, note := note }
     else if !unlisted.isEmpty then { s := s1, ret := .nil, infos := out, note := "reports-unlisted-cid" }
     else if f.ret == .full then
-      let cands := listed.filter (fun c => !(f.infos.any (fun ci => ci.1 == c)) && (recover cfg s1 c).2 == .full)
-      match cands.find? (fun c => obsStrings cfg (recover cfg s1 c).1 == showObs cfg.ncids f.obs) with
-      | some c => { s := (recover cfg s1 c).1, ret := .full, infos := out }
+      let rec1 (c : Nat) := recoverWith cfg s1 c ((snap c).getD .undefined)
+      let cands := listed.filter (fun c => !(f.infos.any (fun ci => ci.1 == c)) && (rec1 c).2 == .full)
+      match cands.find? (fun c => obsStrings cfg (rec1 c).1 ls == showObs cfg.ncids f.obs) with
+      | some c => { s := (rec1 c).1, ret := .full, infos := out }
       | none =>
         match cands with
-        | c :: _ => { s := (recover cfg s1 c).1, ret := .full, infos := out }
+        | c :: _ => { s := (rec1 c).1, ret := .full, infos := out }
         | [] => { s := s1, ret := .nil, infos := out, note := "model-has-no-full-queue" }
     else
       let missing := listed.filter (fun c => !(f.infos.any (fun ci => ci.1 == c)))
@@ -289,13 +308,15 @@ def applyAct (cfg : Cfg) (s : State) (f : Frame) : ModelOut :=
     | some i => { s := retErr s i, ret := .na, infos := [] }
     | none => { s := s, ret := .na, infos := [] }
   | .lose c => { s := lose s c, ret := .na, infos := [] }
+  | .lsFail _ => { s := s, ret := .na, infos := [] }
+  | .snapList => { s := s, ret := .na, infos := [] }
   | .race _ _ => { s := s, ret := .na, infos := [], note := "race-not-expanded" }
 
 /-- the outcomes the model allows for one action, each already run to its stable point. A race has up to
     three: answer processed first (and a freed worker already at work), answer processed first (worker not
     yet), instruction first (the answer then meets a possibly cancelled operation). The daemon's effect has
     landed before either. -/
-def candidates (cfg : Cfg) (s : State) (f : Frame) : List ModelOut :=
+def candidates (cfg : Cfg) (s : State) (ls : Bool) (snap : Option (Nat → Option PinSpec)) (f : Frame) : List ModelOut :=
   let fin (m : ModelOut) : ModelOut := { m with s := stabilize cfg m.s }
   match f.act with
   | .race d i =>
@@ -303,13 +324,13 @@ def candidates (cfg : Cfg) (s : State) (f : Frame) : List ModelOut :=
     let sel := match d with | .ok _ sl => sl | .err _ sl => sl | _ => none
     let isOk := match d with | .ok _ _ => true | _ => false
     match liveCallFor s c sel with
-    | none => [fin (applyAct cfg s { f with act := i })]
+    | none => [fin (applyAct cfg s ls snap { f with act := i })]
     | some op =>
       let s0 := if isOk then effect s op else s
       let retStep (st : State) : State := if isOk then retOk st op else retErr st op
-      let a1 := applyAct cfg (stabilize cfg (retStep s0)) { f with act := i }
-      let a2 := applyAct cfg (retStep s0) { f with act := i }
-      let b0 := applyAct cfg s0 { f with act := i }
+      let a1 := applyAct cfg (stabilize cfg (retStep s0)) ls snap { f with act := i }
+      let a2 := applyAct cfg (retStep s0) ls snap { f with act := i }
+      let b0 := applyAct cfg s0 ls snap { f with act := i }
       let b := { b0 with s := retStep b0.s }
       -- the daemon's failure log is written when the answer is released, i.e. before the instruction
       let kindUnpin := match s.calls.find? (fun k => k.op == op) with
@@ -325,7 +346,7 @@ def candidates (cfg : Cfg) (s : State) (f : Frame) : List ModelOut :=
         { m with s := { m.s with failed := fl1 },
                  infos := match i with | .recover _ => f.infos.map (fun ci => (ci.1, normInfo ci.2)) | _ => m.infos }
       [fin (patch a1), fin (patch a2), fin (patch b)]
-  | _ => [fin (applyAct cfg s f)]
+  | _ => [fin (applyAct cfg s ls snap f)]
 
 def showInfos (l : List (Nat × Status)) : String :=
   if l.isEmpty then "-" else ",".intercalate (l.map (fun ci => s!"{ci.1}.{showStatus ci.2}"))
@@ -335,24 +356,24 @@ def frameStrings (n : Nat) (ret : RetCode) (infos : List (Nat × Status)) (o : O
 
 /-- first frame where the model and the implementation part (none = agreement). Races are resolved by
     trying the allowed outcomes in turn, backtracking when a later frame cannot be followed. -/
-partial def firstDiff (cfg : Cfg) : Nat → State → List Frame → Option (Nat × String)
-  | _, _, [] => none
-  | k, s, f :: rest =>
+partial def firstDiff (cfg : Cfg) : Nat → State → Bool → Option (Nat → Option PinSpec) → List Frame → Option (Nat × String)
+  | _, _, _, _, [] => none
+  | k, s, ls, snap, f :: rest =>
     let got := frameStrings cfg.ncids f.ret f.infos f.obs
-    let cands := candidates cfg s f
-    let matching := cands.filter (fun m => m.note == "" && frameStrings cfg.ncids m.ret m.infos (observe m.s) == got)
+    let cands := candidates cfg s ls snap f
+    let matching := cands.filter (fun m => m.note == "" && frameStrings cfg.ncids m.ret m.infos (observeR m.s m.ls) == got)
     match matching with
     | [] =>
       match cands with
       | m :: _ =>
         if m.note != "" then some (k, "note:" ++ m.note)
-        else some (k, " ".intercalate (frameStrings cfg.ncids m.ret m.infos (observe m.s)))
+        else some (k, " ".intercalate (frameStrings cfg.ncids m.ret m.infos (observeR m.s m.ls)))
       | [] => some (k, "no-candidate")
     | _ =>
       let rec tryAll : List ModelOut → Option (Nat × String) → Option (Nat × String)
         | [], deepest => deepest
         | m :: more, deepest =>
-          match firstDiff cfg (k + 1) m.s rest with
+          match firstDiff cfg (k + 1) m.s m.ls m.snap rest with
           | none => none
           | some d =>
             let best := match deepest with
@@ -370,7 +391,7 @@ def healedSomewhere (n : Nat) : Obs → List Frame → Bool
 def arms (c : Case) : List String :=
   let has (p : Frame → Bool) := c.frames.any p
   let isInstr (a : Act) : Bool := match a with
-    | .track _ | .untrack _ | .recover _ | .recoverAll => true
+    | .track _ | .untrack _ | .recover _ | .recoverAll | .recoverAllRest => true
     | _ => false
   let quiesced := (c.frames.dropWhile (fun f => !isInstr (instrOf f.act))).any (fun f => quiescent c.cfg.ncids f.obs)
   let healed := healedSomewhere c.cfg.ncids c.obs0 c.frames
@@ -379,6 +400,8 @@ def arms (c : Case) : List String :=
     ++ (if has (fun f => f.ret == .pending) then ["remote"] else [])
     ++ (if has (fun f => match f.act with | .race _ _ => true | _ => false) then ["race"] else [])
     ++ (if has (fun f => match instrOf f.act with | .recover _ | .recoverAll => true | _ => false) then ["recover"] else [])
+    ++ (if has (fun f => f.obs.lsDown && (match instrOf f.act with | .recover _ | .recoverAll => true | _ => false)) then ["lserr"] else [])
+    ++ (if has (fun f => match f.act with | .snapList => true | _ => false) then ["concurrent"] else [])
     ++ (if healed then ["heal"] else [])
     ++ (if quiesced then ["quiesce"] else [])
   if l.isEmpty then ["plain"] else l
@@ -387,7 +410,7 @@ def showArms (c : Case) : String := " ".intercalate ((arms c).map ("arm=" ++ ·)
 
 def trivial (c : Case) : Bool :=
   !(c.frames.any (fun f => match instrOf f.act with
-    | .track _ | .untrack _ | .recover _ | .recoverAll => true
+    | .track _ | .untrack _ | .recover _ | .recoverAll | .recoverAllRest => true
     | _ => false))
 
 /-- the shared pinset must record what the script instructed (harness sanity, not a property clause) -/
@@ -418,7 +441,7 @@ def answer (ws : List String) : String :=
       if want0 != showObs c.cfg.ncids c.obs0 then
         "diff " ++ showArms c ++ " at=init model=" ++ " ".intercalate want0
       else
-        match firstDiff c.cfg 1 (stabilize c.cfg init) c.frames with
+        match firstDiff c.cfg 1 (stabilize c.cfg init) true none c.frames with
         | some (k, m) => s!"diff {showArms c} at={k} model={m}"
         | none => "ok " ++ showArms c ++ (if trivial c then " trivial" else "")
 
